@@ -150,7 +150,7 @@ def spec_text(items):
         xs = ",".join("%s:%s" % (hx(n), hx(v)) for n, v in e["xattrs"]) or "-"
         ex = ",".join("%s:%s" % (hx(t), hx(d)) for t, d in e["extras"]) or "-"
         return "\t".join(["entry", str(e["kind"]), hx(e["name"]), hx(e["data"]), str(e["comp"]), str(e["enc"]), str(e["mode"]),
-                          _o(e["ctime"]), _o(e["mtime"]), _o(e["atime"]), perm, xs, ex])
+                          _o(e["ctime"]), _o(e["mtime"]), _o(e["atime"]), perm, xs, ex] + (["nosize"] if e.get("nosize") else []))
     out = []
     for it in items:
         if it[0] == "entry":
